@@ -472,7 +472,11 @@ func init() {
 	// dirlink TARGET LINK: a directory TARGET and a symbolic link LINK to it (both in the case directory)
 	register("dirlink", func(s *sess, tk []string) {
 		must(os.MkdirAll(filepath.Join(s.dir, tk[1]), 0755))
-		must(os.Symlink(tk[1], filepath.Join(s.dir, tk[2])))
+		link := filepath.Join(s.dir, tk[2])
+		must(os.MkdirAll(filepath.Dir(link), 0755))
+		rel, err := filepath.Rel(filepath.Dir(link), filepath.Join(s.dir, tk[1]))
+		must(err)
+		must(os.Symlink(rel, link))
 		s.obs("dirlink ok")
 	})
 }
